@@ -444,6 +444,7 @@ def _relabel_shuffle(c, rnd):
 def compose_symbolic_types(p, item, tier, seed):
     """Systematic topologies with *symbolic* gate types (one query per topology)."""
     n_in, topo_list = item
+    limit_hits = 0
     for topo in topo_list:
         inputs = [f"x{i}" for i in range(n_in)]
         zs = {lab: z3.Bool(lab) for lab in inputs}
@@ -472,14 +473,35 @@ def compose_symbolic_types(p, item, tier, seed):
                     term = z3.If(sel == i, refsem.ref_op(t.name, args), term)
                 ER[lab] = term
             symeval.clear_oob()
-            dis = _entrypoint_disagreements(c, zs, ER)
 
             def er_row(bits):
                 sub = [(zs[l], z3.BoolVal(b)) for l, b in zip(inputs, bits)]
                 return {k: z3.substitute(v, *sub) if sub else v for k, v in ER.items()}
 
-            if n_in <= 2:
-                dis += _tt_disagreements(c, er_row)
+            def observe():
+                d = _entrypoint_disagreements(c, zs, ER)
+                if n_in <= 2:
+                    d += _tt_disagreements(c, er_row)
+                return d
+
+            # code that branches on a gate value forks the run instead of stopping it
+            try:
+                paths, _st = forkexec.explore(observe, base=list(constraints), catch=(), max_paths=48)
+            except forkexec.PathLimit:
+                p.queries["unknown"] += 1
+                limit_hits += 1
+                if limit_hits == 3:
+                    p.inconclusive.append(f"symbolic gate types, {n_in} inputs: the code under test branches on gate values more than 48 ways per topology; "
+                                          f"{len(topo_list)} topologies left undecided")
+                    return
+                continue
+            if len(paths) > 1:
+                p.count("topologies_evaluated_on_several_paths")
+                dis = []
+                for pp in paths:
+                    dis += [(d[0], d[1], z3.And(pp.cond(), d[2])) for d in pp.result]
+            else:
+                dis = paths[0].result
             p.case(("symtypes", n_in, tuple(topo), tuple(outs)),
                    sample=f"topology inputs={n_in} operands={topo} outputs={outs} with symbolic gate types "
                           f"({'x'.join(str(len(cc)) for cc in cands_all)} labellings)")
